@@ -17,6 +17,7 @@ import (
 	tcpip "github.com/brewlin/net-protocol/protocol"
 
 	"verif/engine"
+	"verif/ref"
 	"verif/shim/vsched"
 	"verif/shim/vtime"
 )
@@ -345,6 +346,9 @@ func c08Jobs(tier string) []string {
 		jobs = append(jobs, fmt.Sprintf("churn:%d/4", i))
 	}
 	jobs = append(jobs, "keys")
+	for i := 0; i < 8; i++ {
+		jobs = append(jobs, fmt.Sprintf("ipv4:%d/8", i))
+	}
 	for _, n := range []int{17, 20, 25, 33} {
 		strides := []int{2, 3, 4}
 		if tier == "thorough" {
@@ -671,6 +675,23 @@ func c08Run(job, tier string, deadline time.Time) *engine.Result {
 		r.Sample(map[string]interface{}{"keys": "3 base tuples x 2805 single-octet variants; collision search over 2^22 tuples"})
 		return r
 	}
+	if strings.HasPrefix(job, "ipv4:") {
+		var i, n int
+		fmt.Sscanf(job, "ipv4:%d/%d", &i, &n)
+		depth := 3
+		if tier == "thorough" {
+			depth = 4
+		}
+		r.Violations = c08IPJob(i, n, depth, r)
+		for k := range r.Violations {
+			r.Violations[k].Job = job
+		}
+		r.States = r.Execs + 1
+		r.Outcomes = []uint64{engine.Hash(job, len(r.Violations))}
+		r.Bound = fmt.Sprintf("all sequences of %d fragments over 16 symbols through ipv4.HandlePacket", depth)
+		r.Sample(map[string]interface{}{"ipv4": "UDP datagram of four 8-byte units to a bound socket; unit-interval fragments, empty fragments with MF at every offset, fragments ending beyond 65535"})
+		return r
+	}
 	if strings.HasPrefix(job, "many:") {
 		var n, st int
 		fmt.Sscanf(job, "many:%d:%d", &n, &st)
@@ -731,6 +752,18 @@ func c08Replay(rp json.RawMessage) *engine.Violation {
 				vv := v
 				return &vv
 			}
+		}
+		return nil
+	}
+	var ipq struct {
+		Seq []int `json:"ipv4seq"`
+	}
+	if json.Unmarshal(rp, &ipq) == nil && len(ipq.Seq) > 0 {
+		src, dst := tcpip.Address("\x0a\x00\x00\x02"), tcpip.Address("\x0a\x00\x00\x01")
+		payload := []byte("0123456789abcdefghijklmn")
+		msg := ref.BuildUDP(4096, 5300, payload, []byte(src), []byte(dst))
+		if m := c08IPRun(ipq.Seq, c08IPAlphabet(msg), msg, payload, src, dst); m != "" {
+			return &engine.Violation{Property: "C08", Kind: "reassembly", Key: "ipv4:incomplete-set-delivered", Detail: m}
 		}
 		return nil
 	}
